@@ -14,6 +14,8 @@ for d in sorted(glob.glob('/verif/seeded/*/m*')):
     if sel and prop not in sel:
         continue
     patch = d + '/patch.diff'
+    if not os.path.exists(d + '/meta.json') or int(m[1:]) >= 7:
+        continue  # m7.. were written for the final tree and evaluated there (seed_eval.sh)
     meta = json.load(open(d + '/meta.json'))
     if subprocess.run(['git', '-C', '/repo', 'diff', '--quiet']).returncode != 0:
         print('repo working tree not clean'); sys.exit(2)
